@@ -65,7 +65,7 @@ def gen_history(rng, with_timeout):
     calls = []
     for k in range(rng.randint(2, 6)):
         n = rng.choice([1, 2, 3, 6, 12, 25, 40])
-        kinds = ["ok", "ok", "task", "task", "iter"] + (["never"] if with_timeout else [])
+        kinds = ["ok", "ok", "task", "task", "iter", "iterinit"] + (["never"] if with_timeout else [])
         kind = rng.choice(kinds)
         c = dict(n=n, kind=kind)
         if kind == "task":
@@ -76,6 +76,14 @@ def gen_history(rng, with_timeout):
             c["hold"] = rng.randrange(n)
         calls.append(c)
     return calls
+
+
+class RaisingIterable:
+    def __init__(self, exc):
+        self.exc = exc
+
+    def __iter__(self):
+        raise self.exc
 
 
 def run_case(case, ctx):
@@ -128,6 +136,8 @@ def run_scripted(sid, ctx):
             held_call[0] = be.call_no + 1
         src = Src(n, lambda i: delayed(task)(i, tag, i in c.get("fail_at", ())), trace, widen=0,
                   fail_at=c.get("iter_fail_at"), fail_exc=Boom("iter", tag, c.get("iter_fail_at")))
+        if c["kind"] == "iterinit":
+            src = RaisingIterable(Boom("iter", tag, -1))     # the input's __iter__ itself raises
         res = {}
 
         def go():
@@ -177,6 +187,9 @@ def run_scripted(sid, ctx):
                 got = sorted(got)
             if got != want:
                 what = f"{type(e).__name__}{e.args}" if e is not None else str(res.get("out"))[:200]
+                if isinstance(e, RuntimeError) and "already running" in str(e):
+                    ctx.violation("object-left-running-after-failed-call", f"call {k} (ok, n={n}) after {summary[:-1]} raised RuntimeError: {e}; config {cfgdesc}", desc)
+                    return "ok"
                 leak = "leftover-from-earlier-call" if (e is None and any(x[0] != tag for x in res.get("out", []))) or \
                     (isinstance(e, Boom) and tag not in e.args) else "wrong-result"
                 ctx.violation(f"ok-call:{leak}", f"call {k} (ok, n={n}) after {summary[:-1]} returned/raised {what}; config {cfgdesc}", desc)
@@ -186,6 +199,12 @@ def run_scripted(sid, ctx):
                 what = f"raised {type(e).__name__}{getattr(e, 'args', '')}" if e is not None else f"returned {str(res.get('out'))[:150]}"
                 ctx.violation("task-failure:" + ("returned" if e is None else ("leftover-from-earlier-call" if isinstance(e, Boom) and tag not in e.args else "wrong-exception")),
                               f"call {k} with failing tasks {c['fail_at']} of {n} {what}; config {cfgdesc}", desc)
+        elif kind == "iterinit":
+            failed_before[0] = True
+            ctx.count("iterator_failures")
+            if not (isinstance(e, Boom) and e.args[:2] == ("iter", tag)):
+                what = f"raised {type(e).__name__}{getattr(e, 'args', '')}" if e is not None else f"returned {str(res.get('out'))[:150]}"
+                ctx.violation("iterator-failure:__iter__:" + ("returned" if e is None else "wrong-exception"), f"call {k} whose input raises in __iter__ {what}; config {cfgdesc}", desc)
         elif kind == "iter":
             failed_before[0] = True
             ctx.count("iterator_failures")
@@ -203,7 +222,7 @@ def run_scripted(sid, ctx):
             if not isinstance(e, TIMEOUT_TYPES):
                 what = f"raised {type(e).__name__}{getattr(e, 'args', '')}" if e is not None else f"returned {str(res.get('out'))[:150]}"
                 ctx.violation("timeout:not-raised", f"call {k} with a never-completing batch (item {c['hold']} of {n}, timeout={timeout}) {what}; config {cfgdesc}", desc)
-        if src.reentered:
+        if getattr(src, "reentered", 0):
             ctx.violation("input-reentered", f"input entered by two threads at once in call {k}; config {cfgdesc}", desc)
         return "ok"
 
@@ -300,7 +319,13 @@ def run_real(case, ctx):
             if prev_failed:
                 ctx.count("calls_after_a_failed_call")
             if c["kind"] == "ok":
-                if o.get("out") != [[tag, i] for i in range(c["n"])]:
+                wtag = "W" if backend in ("loky", "multiprocessing") else None
+                if o.get("out") != [[tag, i, wtag] for i in range(c["n"])]:
+                    if o.get("out") == [[tag, i, None] for i in range(c["n"])]:
+                        ctx.violation("ok-call:worker-options-lost-after-failed-call",
+                                      f"{backend} call {k} after {[h['kind'] for h in hist[:k]]} ran in workers that were not initialised (the initializer given to Parallel was dropped)", desc)
+                        prev_failed = False
+                        continue
                     ctx.violation("ok-call:wrong-result", f"{backend} call {k} (ok, n={c['n']}) after {[h['kind'] for h in hist[:k]]} gave {str(o)[:200]}", desc)
                 prev_failed = False
             elif c["kind"] == "task":
